@@ -582,6 +582,11 @@ pub struct ReplayOpts {
     /// deliberate-misuse configuration (an actor / marker used twice): only the
     /// validation verdicts (C16, C17) are judged, the convergence obligations do not apply
     pub misuse: bool,
+    /// misuse configurations of the dotted types (two replicas editing through ONE actor): layer A has
+    /// no meaning for the contents there, only validate_merge is judged (against the spec's vmA)
+    pub vm_only: bool,
+    /// replicas 1 and 2 edit through actor 1 (the misuse configurations' MCActorOfShared)
+    pub shared_actor: bool,
 }
 
 pub fn parse_dump_line(line: &str) -> Option<Value> {
@@ -744,7 +749,8 @@ impl<'a, E: Engine> Replayer<'a, E> {
             }
         }
         let d = self.dims.clone();
-        let actor_of = |r: usize| r as u8;
+        let shared = self.opts.shared_actor;
+        let actor_of = move |r: usize| if shared && r <= 2 { 1u8 } else { r as u8 };
         let mut sys: Sys<E> = Sys::new(d.n);
         // the persisted twin: every replica goes through serde_json after every step
         let mut twin: Option<Sys<E>> = if self.opts.persist { Some(Sys::new(d.n)) } else { None };
@@ -782,6 +788,11 @@ impl<'a, E: Engine> Replayer<'a, E> {
             }
         }
         self.cur_sigs = E::sigs(&sys);
+        if self.opts.vm_only {
+            self.obligations(&sys, who, ln, h);
+            self.rep.nontriv("misuse_line");
+            return;
+        }
         let s = &sys.st[who - 1];
         let f = sys.feats.clone();
         let pend_now = E::has_pending(s);
@@ -989,7 +1000,8 @@ impl<'a, E: Engine> Replayer<'a, E> {
         // model verdict <<reads equal, state equal>> at ob.<name>[i][j]..., if the model printed it
         let mv = |v: &Value, idx: usize| -> Option<Value> { v.as_array().and_then(|a| a.get(idx)).cloned() };
 
-        let misuse = self.opts.misuse;
+        let misuse = self.opts.misuse || self.opts.vm_only;
+        let vm_only = self.opts.vm_only;
         // C09: re-applying any known op changes nothing (reads, ==)
         for i in sys.know[who - 1].iter() {
             if misuse {
@@ -1019,7 +1031,7 @@ impl<'a, E: Engine> Replayer<'a, E> {
                     if i >= sys.ops.len() {
                         continue;
                     }
-                    if *expv == json!("ANY") {
+                    if *expv == json!("ANY") || vm_only {
                         continue;
                     }
                     let st = &sys.st[q];
